@@ -52,6 +52,14 @@ FIRST_MISSED = {
              '(this also exposed a genuine defect, repaired: `-line-nums` memoisation)',
     'c18-c': 'token kind `range`: one `-line-nums` range of every shape with limits beyond 2**63',
     'c18-d': 'ill-formed regexes that hold a reference to a path symbol (compiled only when the sandbox exists)',
+    'c02-h': 'endings `hard_exec_*`: the OS refuses to start a program with ENOEXEC, in each phase',
+    'c03-g': '`path_component` spellings: a list / path symbol (or a string built from one) embedded in a file name',
+    'c03-h': '`ref_args` spellings: `-existing-*` arguments given where a program symbol is referenced (1 and 2 levels)',
+    'c06-h': 'every chain expression also as ONE object applied to three texts by one instruction',
+    'c08-g': 'definition kinds with empty list elements (first, middle, last, only) through all contexts',
+    'c08-h': 'contexts `*-after-deciding`: the reference follows an operand that already decides the && / || chain',
+    'c09-h': 'quoted look-alikes of the markers `:>`, `<<EOF`, `<<`, `-rel` in the quoted-option group',
+    'c10-h': '`-existing-*` arguments whose PATH is, or goes through, a symbolic link',
 }
 
 
@@ -72,9 +80,9 @@ def main():
     n = len(rows)
     k = sum(1 for r in rows if r[3] == 'missed')
     print()
-    print('%d changes; first pass: %d caught, %d missed; by round (a/b, c/d, e/f): %s' % (
+    print('%d changes; first pass: %d caught, %d missed; by round (a/b, c/d, e/f, g/h): %s' % (
         n, n - k, k, ', '.join('%d/%d' % (sum(1 for r in rows if r[0][4] in ab and r[3] == 'caught'),
-                                          sum(1 for r in rows if r[0][4] in ab)) for ab in ('ab', 'cd', 'ef'))))
+                                          sum(1 for r in rows if r[0][4] in ab)) for ab in ('ab', 'cd', 'ef', 'gh'))))
 
 
 if __name__ == '__main__':
